@@ -67,7 +67,8 @@ theorem C07_result_passthrough (sk : Skel) (w : WrapSkel) (hw : w.disableTestFir
   exceptional_exit_passthrough sk w hw ps e st hd h he
 
 /-- the source read today calls the wrapped function at exactly one place of `wrapped_fn_impl` -/
-theorem C07_generated_good : Generated.implFnCalls = 1 := by decide
+theorem C07_generated_good :
+    Generated.implFnCalls = 1 ∧ Generated.implFnCallArgs = ["*args, **kwargs"] := by decide
 
 /-! non-vacuity: parameters named like the generated identifiers -/
 example : parsePieces (renderSig [⟨"a", .posOnly, false⟩, ⟨"b", .posOrKw, true⟩, ⟨"k", .kwOnly, false⟩, ⟨"kw", .varKw, false⟩] [⟨"ret0", .kwOnly, false⟩]) =
